@@ -130,12 +130,9 @@ def index_model(sites, order_spins=0):
     return out
 
 
-def symmop_line(poly, sites, order_spins=0):
-    idx = {t: i for i, t in enumerate(index_model(sites, order_spins))}
-    p2 = []
-    for coef, ops in poly:
-        p2.append((coef, [(dag, idx[(lab, orb, spin)]) for dag, lab, orb, spin in ops]))
-    return poly_line("symmop", p2, by_label=False)
+def symmop_line(poly, sites=None, order_spins=0):
+    """custom integral of motion written with (label, orbital, spin); the runner translates with pomerol's own index table"""
+    return poly_line("symmopL", poly, by_label=True)
 
 
 def pipeline(model, upto="rho"):
